@@ -113,3 +113,27 @@ Theorem C05_wf_twin_refuted_skipped_fetch :
   wtrace false (winit ks3) [WConnect 1 0; WRun; WAssign 1 (-2); WRun; WDisconnect 1; WRun].
 Proof. exact wf_twin_refuted_skipped_fetch. Qed.
 Print Assumptions C05_wf_twin_refuted_skipped_fetch.
+
+(* What a hit relies on, proved: a workflow in which every child has run on the inputs it shows (Settled) is
+   a fixed point of the uncached body -- re-running it changes nothing and succeeds ... *)
+Theorem C05_wf_settled_rerun_is_identity : forall st, Settled st -> body false st = (st, WValue).
+Proof. exact settled_rerun_is_identity. Qed.
+Print Assumptions C05_wf_settled_rerun_is_identity.
+
+(* ... every successful executed run of a reachable workflow ends Settled ... *)
+Theorem C05_wf_success_settles : forall ks ops s1,
+  body true (wexec true (winit ks) ops) = (s1, WValue) -> Settled s1.
+Proof.
+  intros ks ops s1 H. exact (proj1 (body_success_settles _ s1 (valid_reachable ks ops) (forward_reachable ks ops) H)).
+Qed.
+Print Assumptions C05_wf_success_settles.
+
+(* ... so for EVERY history: after a successful run that was really executed, running again with nothing
+   touched is served from the workflow's cache, and that is exactly what the uncached twin does. *)
+Theorem C05_wf_repeat_run_sound : forall ks ops s1,
+  let st := wexec true (winit ks) ops in
+  (match wcache st with Some k => key_eqb k (key st) | None => false end) = false ->
+  run_wf true st = (s1, WValue) ->
+  run_wf true s1 = (s1, WValue) /\ run_wf false (er s1) = (er s1, WValue).
+Proof. exact repeat_run_sound. Qed.
+Print Assumptions C05_wf_repeat_run_sound.
